@@ -489,6 +489,36 @@ Proof.
   apply (cpn_class g0 s). exact Hi.
 Qed.
 
+Lemma PresJ_guarded X (q : graph -> bool) (m : M unit) :
+  PresJ X m -> PresJ X (bind (m_get q) (fun b : bool => if b then m else ret tt)).
+Proof. intros Hm. apply PresJ_bind'; [apply PresJ_get | intros b]. destruct b; [exact Hm | apply PresJ_ret]. Qed.
+
+Lemma PresJ_prune_if7 X i : PresJ X (prune_if7 i).
+Proof.
+  unfold prune_if7, exists_as. apply PresJ_bind_get. intros s HJ.
+  destruct (has_node (fst s) i && cls_eqb (class_of (fst s) i) CCP) eqn:Eb; [|apply PresJ_ret].
+  apply andb_true_iff in Eb. destruct Eb as [Hh Hc].
+  pose proof (J4_cons X s HJ) as C. destruct (cons_has g0 s i C Hh) as [Hd _].
+  assert (Hi : class_of g0 i = CCP).
+  { rewrite <- (cons_class g0 s i C Hd). destruct (class_of (fst s) i); simpl in Hc; try discriminate; reflexivity. }
+  apply PresJ_bind'; [apply PresJ_get | intros ifs].
+  apply PresJ_bind'; [apply PresJ_for_each_set; intros j _; apply PresJ_disconnect_step | intros _].
+  apply PresJ_remove_cp. exact Hi.
+Qed.
+
+Lemma PresJ_api_prune7 X : PresJ X api_prune7.
+Proof.
+  unfold api_prune7.
+  apply PresJ_bind'; [apply PresJ_get | intros ns_].
+  apply PresJ_bind'; [apply PresJ_get | intros cs].
+  apply PresJ_bind'; [apply PresJ_get | intros ss].
+  apply PresJ_bind'; [apply PresJ_get | intros is_].
+  apply PresJ_bind'; [apply PresJ_for_each_set; intros nn _; unfold prune_node7, exists_as; apply PresJ_guarded; apply PresJ_api_remove_node | intros _].
+  apply PresJ_bind'; [apply PresJ_for_each_set; intros cn _; unfold prune_comp7, exists_as; apply PresJ_guarded; apply PresJ_api_remove_component | intros _].
+  apply PresJ_bind'; [apply PresJ_for_each_set; intros s _; unfold prune_ns7, exists_as; apply PresJ_guarded; apply PresJ_remove_ns_disconnecting | intros _].
+  apply PresJ_for_each_set. intros i _. apply PresJ_prune_if7.
+Qed.
+
 End Closed.
 
 (* ---- statements about `exec` ---- *)
@@ -539,6 +569,7 @@ Proof.
   - refine (PresJ_run g _ _ _ _ _ E).
     apply PresJ_bind'; [apply PresJ_api_remove_interface | intros c; apply PresJ_ret].
   - apply (PresJ_run g _ _ _ _ (PresJ_then_ret g _ _ _ (PresJ_api_prune g _)) E).
+  - apply (PresJ_run g _ _ _ _ (PresJ_then_ret g _ _ _ (PresJ_api_prune7 g _)) E).
 Qed.
 
 (* closedness + "the element is deleted" = "everything the element owns is deleted" *)
